@@ -307,6 +307,10 @@ func c01Scenarios(tier string) []*world.Scenario {
 			out = append(out, c01Scenario([][]string{p, {"FA"}, {"M2"}}, true, 3))
 		}
 	}
+	// a whole write batch to one silent node times out: one timeout error per request, in order (round 10)
+	for _, n := range []int{2, 3, 5} {
+		out = append(out, TimeoutBatch("C01", n, 2))
+	}
 	return out
 }
 
